@@ -415,7 +415,7 @@ def main(registry):
         sys.exit(2)
     ctx = Ctx(a.pid, a.tier, seed)
     try:
-        registry[a.pid](ctx, a.replay)
+        registry[a.pid](ctx, os.path.abspath(a.replay) if a.replay else None)
         rc = ctx.finish()
     except ToolError as x:
         log("TOOL ERROR: %s" % x)
